@@ -1,26 +1,25 @@
-// scratch probe: cargo run --release --bin probe -- <C05 continuity replay>
-use opwv::gen::wrist_joints;
+// scratch probe: which pairs collide for plain box robots
+use opwv::gen::IsoSpec;
 use opwv::glue::*;
-use opwv::model::*;
-use rs_opw_kinematics::kinematic_traits::Kinematics;
+use opwv::scene::*;
+use std::collections::BTreeMap;
 fn main() {
-    let f = std::env::args().nth(1).unwrap();
-    let v: serde_json::Value = serde_json::from_str(&std::fs::read_to_string(f).unwrap()).unwrap();
-    let c = &v["case"]["Continuity"];
-    let r: RobotSpec = serde_json::from_value(c["robot"].clone()).unwrap();
-    let j: [f64; 6] = serde_json::from_value(c["j"].clone()).unwrap();
-    let k = opw(&r);
-    let q = wrist_joints(&r, &j, 0, 0.0);
-    let mut prev = q; prev[3] += c["d4"].as_f64().unwrap(); prev[5] += c["d6"].as_f64().unwrap();
-    println!("q={:?}\nprev={:?}", q, prev);
-    let pose = to_na(&r.fk(&q));
-    println!("inverse:");
-    for s in k.inverse(&pose) { println!("  {:?} sing={:?}", s, k.kinematic_singularity(&s)); }
-    for d in [[1.25e-7,0.,0.],[0.,1.25e-7,0.],[0.,0.,1.25e-7]] {
-        let mut sp = pose; sp.translation.vector.x += d[0]; sp.translation.vector.y += d[1]; sp.translation.vector.z += d[2];
-        println!("shift {:?}", d);
-        for s in k.inverse(&sp) { println!("  {:?} sing={:?} fkerr={:e} {:e}", s, k.kinematic_singularity(&s), (k.forward(&s).translation.vector-pose.translation.vector).norm(), k.forward(&s).rotation.angle_to(&pose.rotation)); }
+    let mut hist: BTreeMap<String, u32> = BTreeMap::new();
+    let mut state: u64 = 12345;
+    let mut rnd = || { state = state.wrapping_mul(6364136223846793005).wrapping_add(1442695040888963407); ((state >> 11) as f64) / ((1u64 << 53) as f64) };
+    let mut n = 0;
+    for (name, robot) in catalogue() {
+        let scene = Scene { robot, link_r: [0.03; 6], link_fan: [0; 6], tool: Some((0.2, 0.03, 0)), base: Some((IsoSpec::identity(), [0.2, 0.2], 0.3, 0)), env: vec![], safety: SafetySpec::touch(1), limits: None, slim: true };
+        for _ in 0..200 {
+            let j: [f64; 6] = std::array::from_fn(|_| (rnd() * 2.0 - 1.0) * 3.14);
+            let b = scene.build(&j);
+            let det = b.robot.collision_details(&j);
+            n += 1;
+            for p in det { *hist.entry(format!("{} {}", name, opwv::props::c10::pair_name(&p))).or_insert(0) += 1; }
+        }
     }
-    println!("continuing:");
-    for s in k.inverse_continuing(&pose, &prev) { println!("  {:?}", s); }
+    println!("{} postures", n);
+    let mut agg: BTreeMap<String, u32> = BTreeMap::new();
+    for (k, v) in &hist { *agg.entry(k.split(' ').nth(1).unwrap().to_string()).or_insert(0) += v; }
+    for (k, v) in agg { println!("{:12} {}", k, v); }
 }
